@@ -132,7 +132,7 @@ func conc(args []string) {
 		refListing := map[string]string{}
 		for _, e := range s.Comps {
 			if _, ok := refListing[e]; !ok {
-				m, err, pan := compile(xpm.ToReal(e))
+				m, err, pan := compileRaw(xpm.ToReal(e))
 				if err != nil || pan != nil {
 					fmt.Fprintln(os.Stderr, "setup: cannot compile", e, err, pan)
 					os.Exit(2)
@@ -150,7 +150,7 @@ func conc(args []string) {
 		for _, p := range runPids {
 			e := s.Runs[strconv.Itoa(p)]
 			if _, ok := machines[e]; !ok {
-				m, err, pan := compile(xpm.ToReal(e))
+				m, err, pan := compileRaw(xpm.ToReal(e))
 				if err != nil || pan != nil {
 					fmt.Fprintln(os.Stderr, "setup: cannot compile", e, err, pan)
 					os.Exit(2)
@@ -218,7 +218,7 @@ func conc(args []string) {
 			pid, expr := i+1, e
 			pr := &proc{kind: "comp", expr: expr}
 			spawn(pid, pr, func() {
-				m, err, pan := compile(xpm.ToReal(expr))
+				m, err, pan := compileRaw(xpm.ToReal(expr))
 				if err != nil || pan != nil || m == nil {
 					pr.listing = fmt.Sprint("COMPILE FAILED: ", err, pan)
 					return
@@ -546,7 +546,7 @@ func stress(args []string) {
 	refs := []RunResult{}
 	listings := []string{}
 	for _, e := range exprs {
-		m, err, pan := compile(e)
+		m, err, pan := compileRaw(e)
 		if err != nil || pan != nil {
 			fmt.Fprintln(os.Stderr, "setup: cannot compile", e, err, pan)
 			os.Exit(2)
@@ -576,7 +576,7 @@ func stress(args []string) {
 					// a machine nobody has compiled or run before, over arguments nobody has used before: whatever a
 					// function keeps per argument value (caches, interned strings) is touched for the first time here
 					e := freshExpr(int(x>>10), gi*(*n)+it+1+seed*1000003)
-					m, err, pan := compile(e)
+					m, err, pan := compileRaw(e)
 					if err != nil || pan != nil {
 						report(ConcOut{0, it, "concurrent compilation of " + e + " failed", "fresh-compile", fmt.Sprint(err, pan)})
 						continue
@@ -597,7 +597,7 @@ func stress(args []string) {
 					continue
 				}
 				if (x>>3)%4 == 0 {
-					m, err, pan := compile(exprs[k])
+					m, err, pan := compileRaw(exprs[k])
 					if err != nil || pan != nil || m.PrintMachine() != listings[k] {
 						report(ConcOut{0, it, "concurrent compilation of " + exprs[k] + " differs from the one in isolation", "compile-result", fmt.Sprint(err, pan)})
 					}
